@@ -1,6 +1,7 @@
 package printer
 
 import (
+	"sort"
 	"strconv"
 	"strings"
 
@@ -159,7 +160,17 @@ func (p *goasm) ensureclear() {
 
 func (p *goasm) global(g *ir.Global) {
 	p.NL()
-	for _, d := range g.Data {
+
+	// The assembler requires the DATA entries of a symbol in increasing offset
+	// order, which need not be the order they were added in.
+	data := append([]ir.Datum(nil), g.Data...)
+	sort.SliceStable(data, func(i, j int) bool {
+		si, ei := data[i].Interval()
+		sj, ej := data[j].Interval()
+		return si < sj || (si == sj && ei < ej)
+	})
+
+	for _, d := range data {
 		a := operand.NewDataAddr(g.Symbol, d.Offset)
 		p.Printf("DATA %s/%d, %s\n", a.Asm(), d.Value.Bytes(), d.Value.Asm())
 	}
